@@ -23,7 +23,7 @@ impl Monitor for C16 {
         "exploration"
     }
     fn num_cases(&self, tier: Tier) -> u64 {
-        tier.pick(1600, 40_000)
+        tier.pick(9_600, 240_000)
     }
     fn num_dev_cases(&self, tier: Tier) -> u64 {
         tier.pick(80, 2_000)
